@@ -217,13 +217,12 @@ def _access_path(path: SubTablePath):
     return ".".join(path_parts)
 
 
-def _reorder_cff(top_dict, old_glyph_order: List[str], new_glyph_order: List[str]):
+def _reorder_cff(top_dict, new_glyph_order: List[str]):
     # fontTools compiles charstrings (and FDSelect) in the order of the top dict's own
     # charset, which TTFont.setGlyphOrder leaves alone
-    old_gid = {name: gid for gid, name in enumerate(old_glyph_order)}
-    old_gids = [old_gid[name] for name in new_glyph_order]
     char_strings = top_dict.CharStrings
     if char_strings.charStringsAreIndexed:
+        old_gids = [char_strings.charStrings[name] for name in new_glyph_order]
         index = char_strings.charStringsIndex
         index.items = [index[gid] for gid in old_gids]
         char_strings.charStrings = {
@@ -255,12 +254,11 @@ def reorder_glyphs(font: ttLib.TTFont, new_glyph_order: List[str]):
     # Cf. https://github.com/fonttools/fonttools/issues/2060
     require_fully_loaded(font)
 
-    font.setGlyphOrder(new_glyph_order)
+    # before setGlyphOrder: a CFF2 top dict takes its charset from the font lazily
     for tag in ("CFF ", "CFF2"):
         if tag in font.keys():
-            _reorder_cff(
-                font[tag].cff.topDictIndex[0], old_glyph_order, new_glyph_order
-            )
+            _reorder_cff(font[tag].cff.topDictIndex[0], new_glyph_order)
+    font.setGlyphOrder(new_glyph_order)
 
     coverage_containers = {"GDEF", "GPOS", "GSUB", "MATH"}
     for tag in coverage_containers:
